@@ -9,7 +9,7 @@ from vf.engine import Outcome, Violation
 
 ID = "C12"
 LEVEL = "exploration"
-TECHNIQUE = "exhaustive enumeration of integer ranges and power-of-two neighbourhoods through normalize_piece_length, plus Hypothesis-generated integers/strings through four routes (normaliser, TorrentFile keyword, CLI --piece-length, config file) and generated payload sizes for the automatic choice, against the arithmetic definition of 'acceptable'"
+TECHNIQUE = "exhaustive enumeration of integer ranges and power-of-two neighbourhoods through normalize_piece_length, plus Hypothesis-generated integers/strings through four routes (normaliser, TorrentFile keyword, CLI --piece-length, config file) and generated payload sizes for the automatic choice, against the arithmetic definition of 'acceptable' ; thorough tier adds a coverage-guided (atheris/libFuzzer) stage over the same strategy"
 RULE = ("(a) integers: every value of -64..2^17 (quick) / -1024..2^24 (thorough) and +-64 around 2^k and 3*2^k for k<=80 through "
         "normalize_piece_length, in chunks (one case = one chunk, every value inside is checked; subcases counts values); (b) Hypothesis: "
         "integers up to 2^200, decimal strings, strings with sign/whitespace/underscore/0x/exponent/float notation, Unicode digits and "
